@@ -208,15 +208,15 @@ pub fn run<C: Suite>(ctx: &mut Ctx) {
 fn combos(ctx: &Ctx, nb: usize, p: &mut crate::rng::Pick) -> Vec<Vec<Store>> {
     let mut out = vec![];
     if ctx.notes.contains_key("large") {
-        return vec![vec![Store::Bin; nb], vec![Store::Json; nb], (0..nb).map(|b| if b % 2 == 0 { Store::Bin } else { Store::Json }).collect()];
+        return vec![vec![Store::Bin; nb], vec![Store::Json; nb], vec![Store::Parts; nb], (0..nb).map(|b| if b % 2 == 0 { Store::Bin } else { Store::Json }).collect()];
     }
-    for how in [Store::Bin, Store::Json] {
+    for how in [Store::Bin, Store::Json, Store::Parts] {
         for mask in 1u32..(1 << nb) {
             out.push((0..nb).map(|b| if mask >> b & 1 == 1 { how } else { Store::Mem }).collect());
         }
     }
     for _ in 0..ctx.scale(6, 40) {
-        out.push((0..nb).map(|_| [Store::Mem, Store::Bin, Store::Json][p.below(3)]).collect());
+        out.push((0..nb).map(|_| [Store::Mem, Store::Bin, Store::Json, Store::Parts][p.below(4)]).collect());
     }
     out
 }
@@ -224,7 +224,7 @@ fn combos(ctx: &Ctx, nb: usize, p: &mut crate::rng::Pick) -> Vec<Vec<Store>> {
 fn compare<C: Suite>(ctx: &mut Ctx, proto: &str, who: &str, stores: &[Store], base: &Trace, got: Result<Trace, String>, n: u16, t: u16) {
     let d = |what: &str, extra: serde_json::Value| json!({"what": what, "protocol": proto, "participant": who, "n": n, "t": t, "stores": format!("{stores:?}"), "extra": extra});
     ctx.count("resumed_runs");
-    let cls: Vec<&str> = stores.iter().map(|s| match s { Store::Mem => "m", Store::Bin => "b", Store::Json => "j" }).collect();
+    let cls: Vec<&str> = stores.iter().map(|s| match s { Store::Mem => "m", Store::Bin => "b", Store::Json => "j", Store::Parts => "p" }).collect();
     ctx.class(format!("{proto}/n={n}/t={t}/{}", cls.join("")));
     match got {
         Err(err) => {
